@@ -149,7 +149,7 @@ def nontrivial(rec):
         return False
     if c["obj"] in ("sct", "cp"):
         return True
-    if rec["transport"] == "http":
+    if rec["transport"].startswith("http"):
         return rec.get("hits", 0) > 0
     return c["expect"] != "same"
 
